@@ -294,6 +294,21 @@ def run_text(prop, m, text, acc, cs=None, name="", mfree=False, record=True):
         return None
     events = list(monitors.EV)
     viol, sig, nontriv, stats, obs = analyse(prop, m, p, events, acc)
+    nsc = p.scenarioCount()
+    if nsc > 1:
+        # the text declares further (nested) scenarios WITHOUT overrides: what holds for the first scenario holds for
+        # each of them, judged on that scenario's own ledgers and dates (seeded change C02-e stored resource leaves for
+        # top-level scenarios only)
+        acc.count("cases-with-several-scenarios")
+        for sc in range(1, nsc):
+            ev_sc = [e for e in events if e.get("sc", 0) == sc]
+            v2, _sig2, _nt2, _st2, _obs2 = analyse(prop, m, p, ev_sc or events, acc, sc)
+            acc.count("further-scenarios-analysed")
+            for v in v2:
+                v["detail"] = dict(v["detail"], scenario_index=sc)
+                # (the two known mechanisms - slot-start sampling, leftovers of failed tasks - are exact predicates over this
+                #  scenario's calendar and ledgers, not over the event stream)
+            viol = list(viol) + v2
     for k, v in stats.items():
         acc.count(k, v)
     acc.count("events", len(events))
@@ -338,6 +353,8 @@ def run_case(rnd, cs, job, acc):
         # (a fifth of the moved edges is ALSO kept as a bare 'depends': the gap written on the precedes entry still counts)
         text = gen.render(m, refrnd=random.Random(cs + 1), precrnd=random.Random(cs + 2))
         acc.count("spelled-with-precedes-and-mixed-references")
+    elif prop in ("C01", "C02", "C03", "C05", "C06", "C10") and rnd.random() < 0.1:
+        text = gen.render(m, scenarios=['scenario plan "p" {', '  scenario alt "a" {', '    scenario deep "d"', "  }", '  scenario other "o"', "}"])
     else:
         text = gen.render(m)
     run_text(prop, m, text, acc, cs, name, mfree)
